@@ -174,9 +174,9 @@ def oracle_history(launches, ws=None):
 
 
 # ------------------------------------------------------------------ generation
-def relaunches(rng, quick):
+def relaunches(rng, quick, short=False):
     """1-3 further launches of the same script; all but the last may die too."""
-    k = rng.choice([1, 1, 1, 2] if quick else [1, 1, 2, 3])
+    k = 1 if short else rng.choice([1, 1, 1, 2] if quick else [1, 1, 2, 3])
     out = []
     for j in range(k):
         l = dict(mode=rng.choice(MODES + ["ok", "ok"] + ([rng.choice(FORKS)] if rng.random() < 0.5 else [])))
@@ -218,7 +218,7 @@ def fork_cases(c, refs):
         for n, sig in pts:
             out.append(dict(kind="fork", prefix=r["prefix"], mode=r["mode"],
                             launches=[dict(mode=m) for m in PREFIXES[r["prefix"]]] + [dict(mode=r["mode"], sig=sig, n=n)]
-                            + relaunches(c.rng, True)))
+                            + relaunches(c.rng, True, short=c.quick)))
     return out
 
 
@@ -234,7 +234,7 @@ def eoj_cases(c, refs):
             continue
         pre = [dict(mode=m) for m in PREFIXES[r["prefix"]]]
         for how in (["garbage"] if c.quick and r["mode"] not in ("ok", "raise") else ["garbage", "refused"]):
-            out.append(dict(kind="eoj", prefix=r["prefix"], mode=r["mode"], launches=pre + [dict(mode=r["mode"], eoj=how)] + relaunches(c.rng, True)))
+            out.append(dict(kind="eoj", prefix=r["prefix"], mode=r["mode"], launches=pre + [dict(mode=r["mode"], eoj=how)] + relaunches(c.rng, True, short=c.quick)))
         lines = r["ans"][-1]["lines"]
         body = [n for n, t in enumerate(lines, 1) if t.startswith("task:")]
         if not body or "+" in r["mode"]:
@@ -244,7 +244,7 @@ def eoj_cases(c, refs):
         for n in pts:
             for sig in ([c.rng.choice(SIGNALS)] if c.quick else ["TERM", "INT"]):
                 out.append(dict(kind="eoj", prefix=r["prefix"], mode=r["mode"],
-                                launches=pre + [dict(mode=r["mode"], sig=sig, n=n, eoj="garbage")] + relaunches(c.rng, True)))
+                                launches=pre + [dict(mode=r["mode"], sig=sig, n=n, eoj="garbage")] + relaunches(c.rng, True, short=c.quick)))
     return out
 
 
@@ -270,7 +270,7 @@ def twice_cases(c, refs):
         for n, sig, j in plan:
             out.append(dict(kind="twice", prefix=prefix, mode=mode,
                             launches=[dict(mode=m) for m in PREFIXES[prefix]] + [dict(mode=mode, sig=sig, n=n, kill_after=j)]
-                            + relaunches(c.rng, True)))
+                            + relaunches(c.rng, True, short=c.quick)))
     return out
 
 
@@ -348,7 +348,7 @@ def double_cases(c, refs):
                 # both die: H gets its own signal once it has been let go
                 h.update(sig=c.rng.choice(SIGNALS), n=c.rng.randrange(body_n + 1, nlines + 1))
             out.append(dict(kind="double", prefix=prefix, mode=hmode,
-                            launches=[dict(mode=m) for m in PREFIXES[prefix]] + [h] + relaunches(c.rng, True)))
+                            launches=[dict(mode=m) for m in PREFIXES[prefix]] + [h] + relaunches(c.rng, True, short=c.quick)))
     return out
 
 
@@ -356,7 +356,7 @@ def run(c: Check):
     c.rule = ("every (initial directory: fresh / success marker present / stale failure marker) x body outcome "
               "(return, exception, sys.exit(3), sys.exit(0), other BaseException) x signal (KILL, TERM, INT) x "
               "n-th executed line of run.py or of the task body (lines before the body only for the outcome `return`, the other outcomes from the first body line on; "
-              "quick: every 5th line (6th on the two other directories) plus all body points; thorough: every line; on a directory with a stale failure "
+              "quick: every 6th line (7th on the two other directories) plus all body points; thorough: every line; on a directory with a stale failure "
               "marker 2 resp. 3 of the outcomes), followed by 1-3 relaunches with random outcomes and deaths; "
               "DOUBLE LAUNCHES: a second job process for the same directory is started while the first is held in its body "
               "(latch), its scheduler rewrites the pid file, and it receives KILL/TERM/INT at its n-th executed line, n = 1 .. "
@@ -447,7 +447,7 @@ def run(c: Check):
                 first_body = min([n for n, t in enumerate(lines, 1) if t.startswith("task:")] or [len(lines) + 1])
                 ns = {n for n in ns if n >= first_body}
             if c.quick:
-                step = 5 if r["prefix"] == "fresh" else 6
+                step = 6 if r["prefix"] == "fresh" else 7
                 off = c.rng.randrange(step)
                 ns = {n for n in ns if n % step == off}
                 if r["prefix"] == "fresh" and r["mode"] in ("ok", "raise"):
